@@ -663,7 +663,7 @@ def run(facts, prop=None):
     n += check_chain(res, facts, BUFMUT, "remaining_mut", "has_remaining_mut", ("advance_mut",))
     chain_conservation(res, facts, BUF, "remaining", ("advance", "copy_to_bytes"))
     chain_conservation(res, facts, BUFMUT, "remaining_mut", ("advance_mut",))
-    res.floor("chain_b_calls", n, 6)
+    res.floor("chain_b_calls", n, 4)
     has_std = any(c == 'feature="std"' for c in facts.cfg)
     if has_std:
         check_rw(res, facts)
